@@ -118,6 +118,16 @@ func (f *Fn) match(p ast.Expr, e ast.Expr, b Binds) bool {
 			}
 		}
 	}
+	// a conversion to the operand's own type is transparent: (string)(x) for a string x
+	if c, ok := e.(*ast.CallExpr); ok && len(c.Args) == 1 && f.matchDepth < 6 {
+		if tv, isT := f.Info().Types[c.Fun]; isT && tv.IsType() {
+			if at, okA := f.Info().Types[c.Args[0]]; okA && at.Type != nil && types.Identical(at.Type, tv.Type) {
+				if _, patIsCall := p.(*ast.CallExpr); !patIsCall {
+					return f.match(p, c.Args[0], b)
+				}
+			}
+		}
+	}
 	return f.matchNode(p, e, b)
 }
 
